@@ -131,7 +131,13 @@ func c18Nums() []c18Num {
 		if neg {
 			sg, cl = "-", "neg"
 		}
-		addFloat(sg+"0", cl, func() *big.Float { f := new(big.Float); if neg { f.Neg(f) }; return f })
+		addFloat(sg+"0", cl, func() *big.Float {
+			f := new(big.Float)
+			if neg {
+				f.Neg(f)
+			}
+			return f
+		})
 		addFloat(sg+"inf", cl, func() *big.Float { return new(big.Float).SetInf(neg) })
 		addFloat(sg+"1.5 prec53", cl, parse(sg+"1.5", 53, big.ToNearestEven))
 		addFloat(sg+"1.5 prec2 toZero", cl, parse(sg+"1.5", 2, big.ToZero))
